@@ -347,3 +347,72 @@ Proof.
   - unfold side_okb_c in H. apply andb_prop in H. exact (proj1 H).
   - exact (proj2 (side_okb_c_ok host p H)).
 Qed.
+
+(** ** strategies at the level of RESULTS: every glued graph of the component-aware (and of the fallback) strategy is,
+    up to [obs_eq], a glued graph of the exhaustive strategy *)
+
+(** a raw match whose glue is defined is represented, up to [obs_eq], among the glued graphs of its strategy *)
+Lemma kept_covers strat host p k2 T2 : is_strat strat -> side_ok_c host p ->
+  In k2 (raw_of strat host p) -> glue host (p_rc p) k2 = Some T2 ->
+  exists T', In T' (glued_of strat host p) /\ obs_eq T2 T'.
+Proof.
+  intros Hst SC Hraw2 Hg2. pose proof (proj1 SC) as S.
+  destruct (mono_facts host p k2 S (raw_is_mono_any strat host p k2 Hst SC Hraw2)) as (K2f & K2v & K2ok).
+  destruct (prune_complete (p_rc p) (raw_of strat host p) k2 Hraw2) as (k' & Hk' & Hcase).
+  assert (Hraw' : In k' (raw_of strat host p)) by (exact (C11_Dedup.subseq_in _ _ _ (prune_subseq _ _) Hk')).
+  destruct (mono_facts host p k' S (raw_is_mono_any strat host p k' Hst SC Hraw')) as (K'f & K'v & K'ok).
+  assert (Hfin : exists T', glue host (p_rc p) k' = Some T' /\ obs_eq T2 T').
+  { destruct Hcase as [E | [E | (s & Hs & E)]].
+    - subst k'. exists T2. split; [exact Hg2 | apply obs_eq_refl].
+    - pose proof (proj1 (C11_Dedup.set_eqb_spec k2 k') E) as E2.
+      exact (obs_transfer _ _ T2
+               (glue_obs host host (p_rc p) (p_rc p) k2 k' (obs_eq_refl _) (obs_eq_refl _)
+                  (so_rc_simple _ _ S) (so_rc_simple _ _ S) K2f K2v K'f K'v E2 K2ok) Hg2).
+    - pose proof (proj1 (C11_Dedup.set_eqb_spec k2 (C11_Model.act s k')) E) as E2.
+      destruct (obs_transfer _ _ T2
+                  (glue_obs host host (p_rc p) (p_rc p) k2 (C11_Model.act s k') (obs_eq_refl _) (obs_eq_refl _)
+                     (so_rc_simple _ _ S) (so_rc_simple _ _ S) K2f K2v
+                     (act_nodup_fst _ s k' (so_rc_nodup _ _ S) (so_rc_simple _ _ S) (so_rc_closed _ _ S) Hs K'f)
+                     (eq_ind_r (fun l => NoDup l) K'v (act_snd s k')) E2 K2ok) Hg2) as (T3 & Hg3 & O3).
+      pose proof (glue_aut (p_rc p) s (so_rc_nodup _ _ S) (so_rc_simple _ _ S) (so_rc_closed _ _ S) Hs host k' K'f K'v K'ok) as Ha.
+      rewrite Hg3 in Ha. destruct (glue host (p_rc p) k') as [T'|]; [|destruct Ha].
+      exists T'. split; [reflexivity|]. eapply obs_eq_trans; [exact O3 | apply obs_eq_sym; exact Ha]. }
+  destruct Hfin as (T' & Hg' & O').
+  exists T'. split; [exact (in_glued_s strat host p k' T' (so_flag _ _ S) Hk' Hg') | exact O'].
+Qed.
+
+(** raw matches of the fallback strategy are component-aware or exhaustive raw matches *)
+Lemma raw_bt_cases host p : side_ok_c host p -> forall k, In k (raw_of 2%N host p) -> In k (raw_of 1%N host p) \/ In k (raw_of 0%N host p).
+Proof.
+  intros [S Hb] k Hin. unfold raw_of in *.
+  rewrite (matches_bt_unl _ _ Hb (so_count _ _ S)) in Hin. rewrite (matches_comp_unl _ _ Hb), (matches_all_unl _ _ (so_count _ _ S)).
+  unfold bt_unl_result in Hin.
+  destruct (comp_unl (C06_Model.monos_on (host_c06 host) (pat_c06 (p_pat p))) true (host_c06 host) (pat_c06 (p_pat p))); [right | left]; exact Hin.
+Qed.
+
+Theorem glued_comp_subset_all (host : hostg) (p : prepared) : side_ok_c host p ->
+  (forall T, In T (glued_of 1%N host p) -> exists T', In T' (glued_of 0%N host p) /\ obs_eq T T') /\
+  (forall T, In T (glued_of 2%N host p) -> exists T', In T' (glued_of 0%N host p) /\ obs_eq T T').
+Proof.
+  intros SC. pose proof (proj1 SC) as S.
+  assert (Hgen : forall strat, is_strat strat ->
+            (forall k, In k (raw_of strat host p) -> exists k2, In k2 (raw_of 0%N host p) /\ Permutation k k2) ->
+            forall T, In T (glued_of strat host p) -> exists T', In T' (glued_of 0%N host p) /\ obs_eq T T').
+  { intros strat Hst Hsub T HT.
+    destruct (glued_in_s strat host p T (so_flag _ _ S) HT) as (k & Hk & Hg).
+    assert (Hraw : In k (raw_of strat host p)) by (exact (C11_Dedup.subseq_in _ _ _ (prune_subseq _ _) Hk)).
+    destruct (mono_facts host p k S (raw_is_mono_any strat host p k Hst SC Hraw)) as (Kf & Kv & Kok).
+    destruct (Hsub k Hraw) as (k2 & Hraw2 & Pk).
+    destruct (mono_facts host p k2 S (raw_is_mono_any 0%N host p k2 (or_introl eq_refl) SC Hraw2)) as (K2f & K2v & K2ok).
+    destruct (obs_transfer _ _ T
+                (glue_obs host host (p_rc p) (p_rc p) k k2 (obs_eq_refl _) (obs_eq_refl _)
+                   (so_rc_simple _ _ S) (so_rc_simple _ _ S) Kf Kv K2f K2v (perm_items _ _ Pk) Kok) Hg) as (T2 & Hg2 & O2).
+    destruct (kept_covers 0%N host p k2 T2 (or_introl eq_refl) SC Hraw2 Hg2) as (T' & HT' & O').
+    exists T'. split; [exact HT' | eapply obs_eq_trans; eassumption]. }
+  assert (Hcomp : forall k, In k (raw_of 1%N host p) -> exists k2, In k2 (raw_of 0%N host p) /\ Permutation k k2).
+  { intros k Hin. exact (comp_subset_all host (p_pat p) (so_host _ _ S) (so_pat _ _ S) (proj2 SC) (so_count _ _ S) k Hin). }
+  split.
+  - apply (Hgen 1%N (or_intror (or_introl eq_refl)) Hcomp).
+  - apply (Hgen 2%N (or_intror (or_intror eq_refl))).
+    intros k Hin. destruct (raw_bt_cases host p SC k Hin) as [H1|H0]; [apply Hcomp; exact H1 | exists k; split; [exact H0 | apply Permutation_refl]].
+Qed.
